@@ -12,7 +12,8 @@
    coap_addr_tuple_t): opaque byte strings of fixed size here; la and lt are parameters (their
    values are read from the compiled code on every run).  A length field is a ssize_t:
    8 bytes, little endian, two's complement; the readers reject < 0 and > 0x10000, and - because
-   fread(p, 0, 1, f) returns 0 - also a length of 0. *)
+   fread(p, 0, 1, f) returns 0 - also a length of 0, except for the name of a dynamic resource
+   (the root resource has the empty name; the code skips the fread/fwrite of 0 bytes there). *)
 From Coq Require Import ZArith List Bool.
 From LibcoapV Require Import Base.Bytes Persist.Fs.
 Import ListNotations.
@@ -102,7 +103,8 @@ Definition ps_dyn_dec (l : bytes) : option (ps_dyn * bytes) :=
   match ps_item PS_PROTO l with None => None | Some (proto, l) =>
   match ps_item PS_LEN l with None => None | Some (sz, l) =>
   if negb (ps_size_ok (ps_dec_size sz)) then None else
-  match ps_item (ps_dec_size sz) l with None => None | Some (name, l) =>
+  match (if ps_dec_size sz =? 0 then Some ([], l) else ps_item (ps_dec_size sz) l) with
+  | None => None | Some (name, l) =>
   match ps_item PS_LEN l with None => None | Some (sz2, l) =>
   if negb (ps_size_ok (ps_dec_size sz2)) then None else
   match ps_item (ps_dec_size sz2) l with None => None | Some (pkt, l) =>
@@ -134,7 +136,7 @@ Definition ps_obs_wf (la lt : Z) (r : ps_obs) : Prop :=
   match ob_osc r with Some o => 1 <= len o <= PS_MAX | None => True end.
 
 Definition ps_dyn_wf (r : ps_dyn) : Prop :=
-  len (dy_proto r) = PS_PROTO /\ 1 <= len (dy_name r) <= PS_MAX /\ 1 <= len (dy_pkt r) <= PS_MAX.
+  len (dy_proto r) = PS_PROTO /\ len (dy_name r) <= PS_MAX /\ 1 <= len (dy_pkt r) <= PS_MAX.
 
 Definition ps_obs_wfb (la lt : Z) (r : ps_obs) : bool :=
   (len (ob_key r) =? PS_KEY) && (len (ob_proto r) =? PS_PROTO) && (len (ob_listen r) =? la) &&
@@ -142,7 +144,7 @@ Definition ps_obs_wfb (la lt : Z) (r : ps_obs) : bool :=
   match ob_osc r with Some o => (1 <=? len o) && (len o <=? PS_MAX) | None => true end.
 
 Definition ps_dyn_wfb (r : ps_dyn) : bool :=
-  (len (dy_proto r) =? PS_PROTO) && (1 <=? len (dy_name r)) && (len (dy_name r) <=? PS_MAX) &&
+  (len (dy_proto r) =? PS_PROTO) && (len (dy_name r) <=? PS_MAX) &&
   (1 <=? len (dy_pkt r)) && (len (dy_pkt r) <=? PS_MAX).
 
 (* ------------------------------------------------------------------ counter file (text) *)
